@@ -91,7 +91,8 @@ theorem remaining_stop (left : Expr) (p : Nat) (st : PS)
 
 theorem remaining_step (left : Expr) (p : Nat) (st : PS)
     (h1 : st.peek.type ≠ .semicolon) (h2 : p < precOf cfg st.peek.type)
-    (h3 : st.peek.nl = false ∨ (st.peek.type ≠ .lparen ∧ st.peek.type ≠ .lbracket)) :
+    (h3 : st.peek.nl = false ∨ (st.peek.type ≠ .lparen ∧ st.peek.type ≠ .lbracket))
+    (h4 : st.peek.nl = false ∨ (st.peek.type ≠ .increment ∧ st.peek.type ≠ .decrement)) :
     parseRemaining cfg left p st =
       (parseInfixExpression cfg left st >>= fun (x : Expr × PS) => parseRemaining cfg x.1 p x.2) := by
   rw [parseRemaining]
@@ -101,7 +102,11 @@ theorem remaining_step (left : Expr) (p : Nat) (st : PS)
     rcases h3 with h3 | h3
     · simp [h3]
     · simp [h3.1, h3.2]
-  simp only [a, b, if_true, Bool.false_eq_true, if_false]
+  have c : (st.peek.nl && (st.peek.type == TokType.increment || st.peek.type == TokType.decrement)) = false := by
+    rcases h4 with h4 | h4
+    · simp [h4]
+    · simp [h4.1, h4.2]
+  simp only [a, b, c, if_true, Bool.false_eq_true, if_false]
 
 theorem infix_binary (hc : BaseCfg cfg) (left : Expr) (st : PS) (h : lookup baseInfixFns st.peek.type = some .binary) :
     parseInfixExpression cfg left st =
